@@ -10,7 +10,7 @@ from rv import refmodels as R, gen, oracles as O
 
 LEVEL = "exploration"
 RULE = ("bounded-exhaustive: every multiset of <= 5 items over 0..4 x 1..4 bins (greedy, round-robin), every SEQUENCE of <= 4-5 items over 0..C (first/best-fit) and multiset of <= 6 (decreasing variants) for C in {4,6}, every multiset of <= 6 items over 1..7 with binsize 6 and <= 4 items over 1..13 with binsize 12 (three covers); completion in grid_exhaustive_complete_shards; then greedy, round-robin, first-fit, FFD, best-fit, BFD, decreasing / two-thirds / three-quarters covers on tie-heavy, threshold (binsize divisible by 6; values at "
-        "binsize/2, binsize/3, +-1), exact-fill, all-equal and random inputs, n <= 400 (dozens to hundreds of bins), list presentation; sums compared as multisets, and bins as multisets of values where the "
+        "binsize/2, binsize/3, +-1), exact-fill, all-equal and random inputs, n <= 400, plus 1% cases with 300-1500 items (hundreds of bins) and greedy / round-robin with up to 300 bins, list presentation; sums compared as multisets, and bins as multisets of values where the "
         "rule leaves no freedom; non-trivial = >= 2 bins and (a repeated value or a threshold/exact-fill item); distinct on (algorithm, size, value sequence)")
 ASSUMPTIONS = ["the three-class reference follows the docstring/comments of cflz_covering.py and the cited paper's class definitions"]
 FLOORS = {"quick": {"distinct_nontrivial": 20000}, "thorough": {"distinct_nontrivial": 100000}}
@@ -71,9 +71,14 @@ def draw(rng, i):
     nmax = rng.choice([6, 12, 30, 60, 150, 400])
     if alg in ("greedy", "roundrobin"):
         cls = rng.choice(["ties", "equal", "small", "zeros", "perfect", "powers", "big", "huge"])
-        k = rng.choice([1, 2, 3, 3, 4, 5, 7, 12, 25])
+        k = rng.choice([1, 2, 3, 3, 4, 5, 7, 12, 25, 33, 40, 65, 129, 257, 300])
+        if k >= 33:
+            nmax = rng.choice([k + 5, 2 * k, 3 * k + 7])          # more items than bins, beyond typical internal thresholds (32, 64, 128, 256)
         n = rng.randint(1, nmax)
         return {"kind": "partition", "alg": alg, "k": k, "values": gen.part_values(rng, cls, n, k), "cls": cls, "pres": "list", "pres_seed": 0}
+    if alg in ("ff", "ffd", "bf", "bfd") and rng.random() < 0.01:
+        Cs, v = gen.pack_instance(rng, "manybins")
+        return {"kind": "pack", "alg": alg, "C": Cs, "values": v, "cls": "manybins", "order": "random", "pres": "list", "pres_seed": 0}
     if alg in ("ff", "ffd", "bf", "bfd"):
         return C.draw_pack_case(rng, alg=alg, cls=rng.choice(["threshold", "threshold", "repeat", "equal", "random", "hardpack", "planted", "zeros", "widerange"]), pres="list", nmax=nmax)
     return C.draw_cover_case(rng, alg=alg, cls=rng.choice(["threshold", "threshold", "threshold", "equal", "random", "planted", "worst", "toosmall", "widerange"]), pres="list", nmax=nmax)
